@@ -24,6 +24,12 @@ def run(ctx):
     recs, _, _ = ctx.harness(binp, ["run", tr, "-stride", 3 if quick else 1, "-seed", ctx.seed], timeout=2400)
     s = ctx.summary(recs)
     ctx.take_mismatches(recs)
+    if s.get("dry_run_failures"):
+        # a script that fails without any fault cannot be cut: termination holds there (no verdict), but the enumeration is
+        # incomplete - an infrastructure failure unless the other scripts have shown a violation
+        if not ctx.violations and not ctx.known_hits:
+            raise vlib.Infra("scripts unusable (their calls fail without any fault): %s" % s["dry_run_failures"])
+        ctx.notes.append("scripts left out of the fault enumeration (calls fail without any fault): %s" % s["dry_run_failures"])
     # runs that exhibit exactly a listed known finding are reported above (KNOWN-FINDING) and left out of the
     # trace handed to TLC, so that every other run is still judged
     known = {k["sig"] for k in ctx.known}
